@@ -161,7 +161,7 @@ class Sym:
                 return v
             return ("cast", rv["kind"], v, rv["to"])
         if k == "discr":
-            return ("discr", self.read_place(rv["pl"]))
+            return ("discr", self.read_place(rv["pl"]), tuple((a, b) for a, b in (rv.get("variants") or [])))
         if k == "repeat":
             return ("repeat", self.operand(rv["op"]), rv["n"])
         return ("unknown",)
